@@ -1,11 +1,121 @@
 import StorageModel.Driver.Common
-/- model driver for C20: `run spec` reads case lines on stdin and prints one output line per case
-   (spec = false: the engine model's output; spec = true: the spec's verdict). -/
-namespace StorageModel.Driver.C20
-open StorageModel.Driver
+import StorageModel.C20.TypingCheck
+import StorageModel.Generated.AcceptTable
+/- model driver for C20 (line protocol; never used by a proof).
 
-def step (_line : String) : String := "not-implemented"
-def specStep (_line : String) : String := "not-implemented"
+   case line:  <tag> <mask> <maps> <pub> <query> <tree…>
+     tag    p = query text parsed by the real ast.Parse, s = real tree built field by field,
+            u = untyped tree as the parse listener leaves it (only the traversal is observed)
+     maps, pub   comma separated names `x<hex>`, `-` for the empty list
+     tree   pre-order:  Z  |  N <kind> <#strs> {<field> x<hex>} <#kids> {<label> <tree>}
+   model output:  ok v=<visited>  |  err x<hex> v=<visited>  |  panic  |  - v=<visited> (tag u)  |  bad-shape
+   tag p lines carry a second tree after `//`: the untyped tree of the same text
+   spec output:   wf=<0|1> cfg=<0|1> nc=<0|1> tt=<0|1> ty=<0|1> bad=<names> all=<names>
+                  (tt: typed tree and query text reference the same symbols;
+                   ty: `isTyping` accepts (untyped tree, typed tree), i.e. the relation `Typing` holds)
+-/
+namespace StorageModel.Driver.C20
+open StorageModel StorageModel.Driver StorageModel.C20
+
+def decodeName (s : String) : Option Bytes :=
+  match s.toList with
+  | 'x' :: cs => Bytes.ofHexChars cs
+  | _ => none
+
+def encodeName (b : Bytes) : String := "x" ++ Bytes.toHex b
+
+def decodeNames (s : String) : Option (List Bytes) :=
+  if s == "-" then some [] else (s.splitOn ",").mapM decodeName
+
+def encodeNames (l : List Bytes) : String :=
+  if l.isEmpty then "-" else ",".intercalate (l.map encodeName)
+
+mutual
+partial def parseTree : List String → Option (Tree × List String)
+  | "Z" :: rest => some (.nil, rest)
+  | "N" :: kind :: ns :: rest => do
+    let n ← ns.toNat?
+    let (strs, rest) ← parseStrs n rest
+    match rest with
+    | nk :: rest =>
+      let k ← nk.toNat?
+      let (kids, rest) ← parseKids k rest
+      some (.node kind strs kids, rest)
+    | [] => none
+  | _ => none
+partial def parseStrs : Nat → List String → Option (List (String × Bytes) × List String)
+  | 0, rest => some ([], rest)
+  | n + 1, f :: v :: rest => do
+    let b ← decodeName v
+    let (more, rest) ← parseStrs n rest
+    some ((f, b) :: more, rest)
+  | _, _ => none
+partial def parseKids : Nat → List String → Option (Kids × List String)
+  | 0, rest => some (.none, rest)
+  | n + 1, g :: rest => do
+    let (t, rest) ← parseTree rest
+    let (more, rest) ← parseKids n rest
+    some (.cons g t more, rest)
+  | _, _ => none
+end
+
+structure Case where
+  tag : String
+  cfg : PubCfg
+  tree : Tree
+  source : Option Tree      -- tag p: the untyped tree of the same query text (what the text references)
+
+def parseCase (line : String) : Option Case :=
+  match splitSp line with
+  | tag :: _mask :: maps :: pub :: _query :: toks => do
+    let m ← decodeNames maps
+    let p ← decodeNames pub
+    let (t, rest) ← parseTree toks
+    match rest with
+    | [] => some { tag := tag, cfg := { maps := m, pub := p }, tree := t, source := none }
+    | "//" :: more =>
+      let (u, rest) ← parseTree more
+      if rest.isEmpty then some { tag := tag, cfg := { maps := m, pub := p }, tree := t, source := some u } else none
+    | _ => none
+  | _ => none
+
+def T : Table := Generated.acceptTable
+
+def step (line : String) : String :=
+  match parseCase line with
+  | none => "bad-case"
+  | some c =>
+    if !shaped T c.tree then "bad-shape"
+    else
+      let v := " v=" ++ encodeNames (visit T c.tree)
+      if c.tag == "u" then
+        (if panics T c.tree then "panic" else "-" ++ v)
+      else
+        match validate T c.cfg c.tree with
+        | .panic => "panic"
+        | .ok none => "ok" ++ v
+        | .ok (some s) => "err " ++ encodeName s ++ v
+
+def b01 (b : Bool) : String := if b then "1" else "0"
+
+def specStep (line : String) : String :=
+  match parseCase line with
+  | none => "bad-case"
+  | some c =>
+    let typed := (allSymbols T c.tree).eraseDups
+    let src := match c.source with
+      | some u => (allSymbols T u).eraseDups
+      | none => typed
+    -- what the query references: the symbols of the typed tree and, for parsed text, of the text itself
+    let all := (typed ++ src).eraseDups
+    let bad := all.filter (fun s => !specIsPublic c.cfg s)
+    let tt := typed.all (fun s => src.contains s) && src.all (fun s => typed.contains s)
+    -- the modelled typing relation holds between the real untyped and the real typed tree
+    let ty := match c.source with
+      | some u => isTyping T (line.length) u c.tree
+      | none => true
+    "wf=" ++ b01 (nilOk c.tree) ++ " cfg=" ++ b01 (pubWF c.cfg) ++ " nc=" ++ b01 (namesCovered T c.tree) ++
+      " tt=" ++ b01 tt ++ " ty=" ++ b01 ty ++ " bad=" ++ encodeNames bad ++ " all=" ++ encodeNames all
 
 def run (spec : Bool) : IO Unit := forEachLine (if spec then specStep else step)
 
